@@ -333,7 +333,9 @@ class HybridClass(metaclass=MetaHybridClass):
                 out[ff] = vv.to_dict()
             elif hasattr(vv, "_to_dict"):
                 out[ff] = vv._to_dict()
-            elif ff not in defaults or np.any(defaults[ff] != vv):
+            elif ff not in defaults or not np.array_equal(
+                defaults[ff], vv
+            ):
                 # Only include those scalar values that are not default.
                 out[ff] = vv
 
